@@ -1,6 +1,7 @@
 package rules
 
 import (
+	"sort"
 	"fmt"
 	"go/constant"
 	"go/types"
@@ -73,8 +74,27 @@ func c15(c *Ctx) {
 				client = append(client, lit)
 			}
 		}
-		okS := len(server) == 1 && extensionLineOK(server[0])
-		okC := len(client) == 1 && extensionLineOK("Sec-WebSocket-Extensions: "+client[0]+"\r\n")
+		// every distinct spelling in the package must be the agreed one (an accessor may repeat it)
+		dedupe := func(in []string) []string {
+			seen := map[string]bool{}
+			var out []string
+			for _, s := range in {
+				if !seen[s] {
+					seen[s] = true
+					out = append(out, s)
+				}
+			}
+			sort.Strings(out)
+			return out
+		}
+		server, client = dedupe(server), dedupe(client)
+		okS, okC := len(server) >= 1, len(client) >= 1
+		for _, s := range server {
+			okS = okS && extensionLineOK(s)
+		}
+		for _, s := range client {
+			okC = okC && extensionLineOK("Sec-WebSocket-Extensions: "+s+"\r\n")
+		}
 		r.Check("C15.literals-agree", shortFn(u.upgrade), "announced-literal", u.upgrade.Pos(), okS, fmt.Sprintf("server announces %q: must be permessage-deflate with exactly server_no_context_takeover and client_no_context_takeover (what the client's acceptance test requires)", server))
 		r.Check("C15.literals-agree", shortFn(d.dial), "offered-literal", d.dial.Pos(), okC, fmt.Sprintf("client offers %q: must contain the token the server matches on and both parameters", client))
 	}
